@@ -148,6 +148,14 @@ AuthAtState(EM, F, e, S, av, pm) ==
     ELSE IF pm = "state_error" THEN FALSE
     ELSE Allow(EM, F, S, e)
 
+\* Diagnosis only (never a verdict): the answer if e were judged against those of its OWN auth events that belong
+\* to S instead of against S; lets the harness name a disagreement of that origin.
+AuthAtStateCited(EM, F, e, S, av, pm) ==
+    IF pm = "ids_error" THEN FALSE
+    ELSE IF av /\ EM[e].auth \subseteq S THEN TRUE
+    ELSE IF pm = "state_error" THEN FALSE
+    ELSE Allow(EM, F, EM[e].auth \cap S, e)
+
 (***************************************************************************)
 (* LoadAndVerify: one result per input, the class being the first check    *)
 (* the event fails: valid event, signatures, auth chain, auth rules at the *)
@@ -158,6 +166,13 @@ LoadClass(EM, F, P, loc, e, S) ==      \* loc = LocalOK(EM, F, P), evaluated onc
     ELSE IF F[e] = "badsig" THEN "sig"
     ELSE IF ~AuthChainOKWith(EM, P, loc, e) THEN "chain"
     ELSE IF ~AuthAtState(EM, F, e, S, TRUE, "ok") THEN "rules"
+    ELSE "ok"
+
+LoadClassCited(EM, F, P, loc, e, S) ==     \* diagnosis only, see AuthAtStateCited
+    IF F[e] = "malformed" THEN "invalid"
+    ELSE IF F[e] = "badsig" THEN "sig"
+    ELSE IF ~AuthChainOKWith(EM, P, loc, e) THEN "chain"
+    ELSE IF ~AuthAtStateCited(EM, F, e, S, TRUE, "ok") THEN "rules"
     ELSE "ok"
 
 (***************************************************************************)
